@@ -91,7 +91,7 @@ type walOpt func(*WAL)
 // readable and writable to the current process. If existing files are found,
 // recovery is attempted. If recovery is not possible an error is returned,
 // otherwise the returned *WAL is in a state ready for use.
-func Open(dir string, opts ...walOpt) (*WAL, error) {
+func Open(dir string, opts ...walOpt) (_ *WAL, err error) {
 	w := &WAL{
 		dir:           dir,
 		triggerRotate: make(chan uint64, 1),
@@ -103,6 +103,17 @@ func Open(dir string, opts ...walOpt) (*WAL, error) {
 	if err := w.applyDefaultsAndValidate(); err != nil {
 		return nil, err
 	}
+
+	// If we fail from here on, release everything we opened so far (most
+	// importantly the metaDB which holds a file lock) so that the directory can
+	// be opened again by this process.
+	var opened []io.Closer
+	defer func() {
+		if err != nil {
+			w.closeSegments(opened)
+			w.metaDB.Close()
+		}
+	}()
 
 	// Load or create metaDB
 	persisted, err := w.metaDB.Load(w.dir)
@@ -157,6 +168,7 @@ func Open(dir string, opts ...walOpt) (*WAL, error) {
 			if err != nil {
 				return nil, err
 			}
+			opened = append(opened, sw)
 
 			sealed, indexStart, err := sw.Sealed()
 			if err != nil {
@@ -199,6 +211,7 @@ func Open(dir string, opts ...walOpt) (*WAL, error) {
 		if err != nil {
 			return nil, err
 		}
+		opened = append(opened, sr)
 
 		// Store the open reader to get logs from
 		ss := segmentState{
